@@ -614,6 +614,8 @@ def gen_dag_file(rnd, pid, idx, path, deps, profile):
             desc = '%s-u%d-holds' % (tag, j)
             stmts.insert(rnd.randint(at + 1, len(stmts)), 'assert {ok = i%d.%s, desc = "%s"};' % (j, 'v == %d' % d.export if d.is_test else 'k == 7', desc))
             asserts.append((desc, True, False))
+    if rnd.random() < 0.25:
+        stmts.append('out json {v = v};')          # one output statement: its per-file lock lives in the environment shared by the run
     build_error = None
     if profile == 'broken':
         stmt = rnd.choice(BUILD_ERRORS + MALFORMED_STATIC)
@@ -677,10 +679,21 @@ def fixed_projects():
     out.append(Project(1, [tyerr, perr, user, good]))
     # 2: a passing file imported by two others (one with a false assertion BEFORE the import, one chaining), a shared lib
     lib = DagFile('lib.ucg', 'let k = 7;\n', is_test=False)
-    dep = DagFile('sub/dep_test.ucg', 'let l = import "../lib.ucg";\nlet v = l.k;\nassert {ok = v == 7, desc = "q2-dep-a0-holds"};\nassert {desc = "q2-dep-a1-holds", ok = true};\n', [('q2-dep-a0-holds', True, False), ('q2-dep-a1-holds', True, False)], deps=[lib], export=7)
+    dep = DagFile('sub/dep_test.ucg', 'let l = import "../lib.ucg";\nlet v = l.k;\nassert {ok = v == 7, desc = "q2-dep-a0-holds"};\nassert {desc = "q2-dep-a1-holds", ok = true};\nout json {v = v};\n', [('q2-dep-a0-holds', True, False), ('q2-dep-a1-holds', True, False)], deps=[lib], export=7)
     a = DagFile('a_test.ucg', 'assert {ok = false, desc = "q2-a-a0-fails"};\nlet d = import "sub/dep_test.ucg";\nassert {ok = d.v == 7, desc = "q2-a-a1-holds"};\n', [('q2-a-a0-fails', False, False), ('q2-a-a1-holds', True, False)], deps=[dep])
     b = DagFile('other/b_test.ucg', 'let a = import "../a_test.ucg";\nlet d = import "../sub/dep_test.ucg";\nlet l = import "../lib.ucg";\nassert {ok = d.v == l.k, desc = "q2-b-a0-holds"};\n', [('q2-b-a0-holds', True, False)], deps=[a, dep, lib])
     out.append(Project(2, [lib, dep, a, b]))
+    # 3: a file that stops with a run-time error after a true assertion, imported (value unused) by two other test files
+    rterr = DagFile('rterr_test.ucg', 'let v = 1;\nassert {ok = true, desc = "q3-rterr-a0-holds"};\nlet x = fail "boom";\n', [('q3-rterr-a0-holds', True, False)], 'a run-time error (`fail "boom"`) on the last line', export=1)
+    u1 = DagFile('u1_test.ucg', 'let b = import "rterr_test.ucg";\nassert {ok = true, desc = "q3-u1-a0-holds"};\n', [('q3-u1-a0-holds', True, False)], deps=[rterr])
+    u2 = DagFile('u2_test.ucg', 'assert {ok = true, desc = "q3-u2-a0-holds"};\nlet b = import "rterr_test.ucg";\n', [('q3-u2-a0-holds', True, False)], deps=[rterr])
+    out.append(Project(3, [rterr, u1, u2]))
+    # 4: two files with the same base name in different directories (one passes, one fails), a third importing both
+    xs = DagFile('sub/x_test.ucg', 'let v = 1;\nassert {ok = v == 1, desc = "q4-subx-a0-holds"};\n', [('q4-subx-a0-holds', True, False)], export=1)
+    xo = DagFile('other/x_test.ucg', 'let v = 2;\nassert {ok = v == 1, desc = "q4-otherx-a0-fails"};\nassert {ok = v == 2, desc = "q4-otherx-a1-holds"};\n', [('q4-otherx-a0-fails', False, False), ('q4-otherx-a1-holds', True, False)], export=2)
+    y = DagFile('sub/deep/y_test.ucg', 'let a = import "../x_test.ucg";\nlet b = import "../../other/x_test.ucg";\nassert {ok = a.v == 1, desc = "q4-y-a0-holds"};\nassert {ok = b.v == 2, desc = "q4-y-a1-holds"};\n',
+                [('q4-y-a0-holds', True, False), ('q4-y-a1-holds', True, False)], deps=[xs, xo])
+    out.append(Project(4, [xs, xo, y]))
     return out
 
 
@@ -773,7 +786,7 @@ def standin_import_dag(tier, seed):
     thorough = tier == 'thorough'
     projects = fixed_projects()
     nfixed = len(projects)
-    for i in range(36 if thorough else 6):
+    for i in range(34 if thorough else 4):
         projects.append(gen_project(rnd, nfixed + i, nested=(i % 2 == 1)))
     work = tempfile.mkdtemp(prefix='verif_c13d_')
     jobs, meta = [], []
@@ -786,7 +799,7 @@ def standin_import_dag(tier, seed):
         res = run_many(jobs, 8)
     finally:
         shutil.rmtree(work, ignore_errors=True)
-    bound = ('%d fixed + %d seeded projects of 2..5 *_test.ucg files (0..4 own assertions true / false / malformed at run time, or a build error of %d kinds first / middle / last) in which '
+    bound = ('%d fixed + %d seeded projects of 2..5 *_test.ucg files (0..4 own assertions true / false / malformed at run time, or a build error of %d kinds first / middle / last, 25%% with an `out` statement) in which '
              'file i imports a random subset of the files before it (imports at random places between the assertions, imported values used in further assertions, second import of the same '
              'file), half of them spread over nested directories with repeated base names, half with a shared lib.ucg (30%% of those broken); each project run as: every file alone, all files in '
              'every order (<= 3 files) or %d sampled orders, ordered pairs, MULTISETS (x x / x y x / whole list with repeats / one file under several spellings of its path), and through '
